@@ -285,6 +285,74 @@ func simScenario(r *rng, viol func(clause, sig, detail string), opts ...gpbft.Op
 		desc: map[string]any{"nodes": n, "powers": powers, "byzantine": byz, "max_delay": cfg.maxDelay.String(), "votes": len(g.votes), "byz_votes": bv, "max_round": g.maxRound(), "all_decided": decided}}
 }
 
+// split-brain attempt at the quorum boundary: two honest participants with different inputs that cannot hear each
+// other before stabilisation, and a Byzantine member just under one third that mirrors every vote of an honest
+// participant back to that participant only (same payload, its own signature, the same justification).  The scaled
+// total is not a multiple of three and honest + Byzantine power is exactly floor(2*total/3): one unit short of a strong quorum.
+func splitBrainScenario(r *rng, viol func(clause, sig, detail string)) *simResult {
+	total := int64(65534)
+	if r.bool() {
+		total = 65533
+	}
+	x := (total + 2) / 3 // ceil(total/3)
+	powers := []int64{x, x, total - 2*x}
+	perm := shuffled(r, 3)
+	pw := make([]int64, 3)
+	byz := make([]bool, 3)
+	for i, p := range perm {
+		pw[i] = powers[p]
+		byz[i] = p == 2
+	}
+	base := mkTipset(0, "base")
+	mk := func(tag string, n int) *gpbft.ECChain {
+		ts := []*gpbft.TipSet{base}
+		for i := 1; i <= n; i++ {
+			ts = append(ts, mkTipset(int64(i), fmt.Sprintf("%s%d", tag, i)))
+		}
+		return &gpbft.ECChain{TipSets: ts}
+	}
+	inputs := []*gpbft.ECChain{mk("x", 1+r.intn(2)), mk("y", 1+r.intn(2)), mk("z", 1)}
+	cfg := gnetCfg{n: 3, powers: pw, byz: byz, inputs: inputs, delta: 2 * time.Second}
+	g := newGnet(r, cfg, viol)
+	g.partition = true
+	var bz *gnode
+	for _, nd := range g.nodes {
+		if !nd.honest {
+			bz = nd
+		}
+	}
+	bv := 0
+	g.onSend = func(from int, msg *gpbft.GMessage) {
+		mb := &gpbft.MessageBuilder{NetworkName: verifNet, PowerTable: g.pt, Payload: msg.Vote, Justification: msg.Justification}
+		if msg.Vote.Phase == gpbft.CONVERGE_PHASE {
+			mb.BeaconForTicket = []byte("beacon")
+		}
+		m2, err := mb.Build(g.ctx, g.backend, bz.id)
+		if err != nil {
+			return
+		}
+		bv++
+		g.votes = append(g.votes, &sentVote{sender: bz.idx, msg: m2, honest: false, seq: len(g.votes)})
+		g.pool = append(g.pool, &pendingMsg{to: from, msg: m2, from: bz.idx, ready: g.now})
+	}
+	for i := range g.nodes {
+		g.start(i)
+	}
+	g.run(300+r.intn(600), nil)
+	g.stabilised = true
+	roundAtStab := g.maxRound()
+	decided := g.run(60000, nil)
+	g.checkDecisions()
+	dl := false
+	for _, l := range g.log {
+		if strings.HasPrefix(l, "deadlock") {
+			dl = true
+		}
+	}
+	return &simResult{g: g, decided: decided, byzVotes: bv, roundAtStab: roundAtStab, deadlock: dl && !decided, budget: !decided && !dl,
+		desc: map[string]any{"scenario": "split-brain at the quorum boundary", "nodes": 3, "powers": pw, "byzantine": byz, "votes": len(g.votes), "byz_votes": bv, "max_round": g.maxRound(), "all_decided": decided}}
+}
+
 func shuffled(r *rng, n int) []int {
 	p := make([]int, n)
 	for i := range p {
@@ -312,7 +380,12 @@ func runSpecSim(o *out, r *rng, thorough bool, pid string) {
 		viol := func(clause, sig, detail string) {
 			local = append(local, violation{Clause: clause, Signature: sig, Detail: detail})
 		}
-		res := simScenario(r, viol)
+		var res *simResult
+		if i%6 == 5 {
+			res = splitBrainScenario(r, viol)
+		} else {
+			res = simScenario(r, viol)
+		}
 		for _, v := range local {
 			if strings.HasPrefix(v.Signature, prefix) {
 				o.violate(v.Clause, v.Signature, res.desc, v.Detail)
